@@ -1,6 +1,6 @@
 (* C14 - blocking requests are mutually exclusive and served first-come first-served. *)
 From Coq Require Import NArith List Bool.
-From ZB Require Import Api.Api Api.ApiProofs Api.ApiLive gen.GenConsts.
+From ZB Require Import Api.Api Api.ApiProofs Api.ApiLive Api.ApiFifo gen.GenConsts.
 Import ListNotations.
 Open Scope N_scope.
 
@@ -55,6 +55,14 @@ Theorem C14_consistent_means : forall s, Q s ->
      (forall d, r_phase r = PAwaitRsp d -> d <= now s + r_timeout r)).
 Proof. exact Q_spelled_out. Qed.
 Print Assumptions C14_consistent_means.
+
+(* "queued blocking requests proceed in the order they were issued": in every reachable state the queue of the blocking
+   lock is an order-preserving sub-list of the request ids, which are kept in issue order (a request is appended when it
+   is issued and never moves); the lock is handed to the HEAD of that queue only when its holder releases it (the
+   discipline above) - so blocking requests are served first-come first-served *)
+Theorem C14_blocking_queue_in_issue_order : forall evs, Subseq (block_q (run_events evs)) (ids (run_events evs)).
+Proof. exact blocking_queue_in_issue_order. Qed.
+Print Assumptions C14_blocking_queue_in_issue_order.
 
 (* non-vacuity: two blocking requests and a non-blocking one: the second blocking request's frame appears only after
    the first one ended; the non-blocking one does not wait for the first one's response *)
